@@ -2,4 +2,28 @@
 
 package main
 
+import (
+	"os"
+	"strings"
+	"syscall"
+)
+
 const raceEnabled = true
+
+// The race detector turns the exit status into 66 as soon as one report was written, which would hide
+// this monitor's own three-valued verdict (DESIGN §3 rule 6: in C11 the -race build is scheduling
+// noise, race reports are attributed elsewhere). The child therefore re-executes itself once with
+// exitcode=0; the reports themselves are still written to log_path and are summarised in the
+// evidence (counter race_reports, extra.race_pairs) - nothing is hidden.
+func init() {
+	g := os.Getenv("GORACE")
+	if strings.Contains(g, "exitcode=") {
+		return
+	}
+	os.Setenv("GORACE", strings.TrimSpace(g+" exitcode=0"))
+	exe, err := os.Executable()
+	if err != nil {
+		return
+	}
+	_ = syscall.Exec(exe, os.Args, os.Environ())
+}
